@@ -32,6 +32,18 @@ def lenient_newline(cls, prog, out, ex):
     m = re.search(r'(["\'])(.*)\1', prog, re.S)
     return m is not None and ('\n' in m.group(2) or '\r' in m.group(2))
 
+@rule("KF-FULLMOON-LUAU-BITOP-PANIC", "full_moon 1.2.0 panics (`BinOp::consume(..).unwrap()` in parsers.rs) instead of reporting a syntax error when `&` or `|` is used as a binary operator under syntax = Luau (the tokens exist there for types only); `format_code` therefore panics on such text. Defect of the dependency")
+def fm_panic(cls, prog, out, ex):
+    return cls == 'panic' and 'unwrap()' in ex.get('detail', '') and re.search(r'[&|]', prog) is not None and 'syn=Luau' in ex['key']
+
+@rule("KF-DEEP-STACK", "deeply nested function literals (callback inside callback, table -> function -> table, 24-32 levels, a few hundred bytes) overflow the 2 MiB stack of a worker thread: the process aborts")
+def deep_crash(cls, prog, out, ex):
+    return cls == 'deep-crash'
+
+@rule("KF-DEEP-EXPONENTIAL", "formatting time grows exponentially with the nesting depth of parenthesised binary operands, callbacks reached through `return`, if-expressions and parenthesised type unions (trial formatting is repeated at every level): 16-24 levels take longer than 15 s")
+def deep_time(cls, prog, out, ex):
+    return cls == 'deep-time'
+
 @rule("KF-UNARY-COMMENT", "a comment on its own line between a unary operator and its operand is glued to the operator (`- \\n--c\\na` -> `---c`): the minus becomes part of the comment")
 def unary_comment(cls, prog, out, ex):
     return re.search(r'(-|not|#|~) \n--', prog) is not None and out is not None and re.search(r'---c\d+x', out) is not None
